@@ -747,6 +747,38 @@ var userDefinedKeys = []tree.Path{
 	"networks",
 	"secrets",
 	"configs",
+	// mappings whose keys are user data (names, variables, labels, options): a key starting with `x-` is not an extension
+	"services.*.networks",
+	"services.*.networks.*.driver_opts",
+	"services.*.environment",
+	"services.*.labels",
+	"services.*.annotations",
+	"services.*.extra_hosts",
+	"services.*.sysctls",
+	"services.*.storage_opt",
+	"services.*.ulimits",
+	"services.*.logging.options",
+	"services.*.build.args",
+	"services.*.build.labels",
+	"services.*.build.extra_hosts",
+	"services.*.build.additional_contexts",
+	"services.*.build.ssh",
+	"services.*.build.ulimits",
+	"services.*.deploy.labels",
+	"services.*.deploy.resources.reservations.devices.*.options",
+	"services.*.gpus.*.options",
+	"services.*.develop.watch.*.exec.environment",
+	"services.*.post_start.*.environment",
+	"services.*.pre_stop.*.environment",
+	"networks.*.labels",
+	"networks.*.driver_opts",
+	"networks.*.ipam.options",
+	"networks.*.ipam.config.*.aux_addresses",
+	"volumes.*.labels",
+	"volumes.*.driver_opts",
+	"secrets.*.labels",
+	"secrets.*.driver_opts",
+	"configs.*.labels",
 }
 
 func processExtensions(dict map[string]any, p tree.Path, extensions map[string]any) (map[string]interface{}, error) {
